@@ -597,11 +597,10 @@ def gen_goal_set(rng, n, keep_soft, n_prios=None, allow_vector=True, allow_crit=
                             maxs[c][i] = NAN
                         elif r < 0.25 and (kt is None or kt.cur_max[i] == INF):
                             maxs[c][i] = INF
-                # keep at least one finite entry most of the time (otherwise the goal is empty)
-                if rng.random() < 0.9:
+                if rng.random() < 0.04:  # an empty goal: no finite target entry at all
                     for c in range(ncols):
-                        if not any(math.isfinite(v) for v in mins[c]) and not any(math.isfinite(v) for v in maxs[c]):
-                            pass
+                        mins[c] = [NAN] * nsteps
+                        maxs[c] = [NAN] * nsteps
             if kind in ("tmin", "both"):
                 s.tmin = ("s", mins[0][0]) if tform == "s" else (("v", [m[0] for m in mins]) if tform == "v" else ("ts", mins))
             if kind in ("tmax", "both"):
